@@ -24,7 +24,8 @@ theorem reachable_params (k : Nat) (hl cl : Bool) (er : Option Nat) (es : List E
   exact ⟨this.hasLoop, this.closable, this.err, by rw [this.k]; simp [init]⟩
 
 /-- one step from a state in which the winner has returned: the log, the loop thread and the winner's
-result stay as they are, and the only thread moves possible are recorders and late `Close` calls -/
+result stay as they are, and the only thread moves possible are recorders and late or waiting `Close` calls (a
+call that lost the CAS goes to `<-s.closeDone`, a call waiting there returns nil) -/
 theorem silent_step (s s' : State) (e : Ev) (h : Ctl s) (w : Nat) (r : Option Nat)
     (hret : s.closers w = .returned r) (hs : step s e = some s') :
     s'.log = s.log ∧ s'.closers w = .returned r ∧ s'.doneClosed = s.doneClosed ∧ s'.loop = s.loop := by
@@ -55,6 +56,14 @@ theorem silent_step (s s' : State) (e : Ev) (h : Ctl s) (w : Nat) (r : Option Na
       have hwt : w ≠ t := fun e => htw e.symm
       simp only [hclosed, if_true, Option.some.injEq] at hs; subst hs
       exact ⟨rfl, by simp [setC, hwt, hret], rfl, rfl⟩
+    case h_10 hpc =>
+      -- a call waiting at `<-s.closeDone` returns nil
+      have htw : t ≠ w := fun e => by subst e; rw [hret] at hpc; cases hpc
+      have hwt : w ≠ t := fun e => htw e.symm
+      split at hs
+      · simp only [Option.some.injEq] at hs; subst hs
+        exact ⟨rfl, by simp [setC, hwt, hret], rfl, rfl⟩
+      · cases hs
     all_goals
       next hpc =>
       first
